@@ -159,6 +159,9 @@ class ScopeGen:
                         taken_v.add(ln)
                         unq.append((d.name, al, False, d))
                 m.imports.append((t.idx, alias, unq))
+                if r.random() < 0.15 and not any(i[1] == "dup" for i in m.imports):
+                    # the same module once more under another name: both qualifiers are in scope
+                    m.imports.append((t.idx, "dup", []))
         for m in ws.modules:
             self.render_module(m)
         return ws
